@@ -3,10 +3,10 @@ PLAN = {
     "level": "proof",
     "manifest": {
         "technique": "Verus (z3) on drive_connection (+ would_block/interrupted) and on the per-client fan-out step of run_transport (loop body lifted mechanically to a function), extracted verbatim, with the non-blocking socket write as an ASSUMED contract over a ghost 'bytes accepted so far' view (frame-integrity and per-client queue clauses)",
-        "text": "Claimed where a boundary exists. (a) drive_connection: for every state of (parked remainder, queue), every socket behaviour (any partial write length, WouldBlock, EINTR, errors) and any number of loop iterations, drive_connection conserves `bytes accepted by the socket ++ parked remainder ++ queued frames`: no byte of a frame is lost, duplicated or reordered, so what a slow client receives stays a prefix of the concatenation of whole frames; and the droppable queue only loses frames from its front and never receives the remainder of a half-written frame (that stays parked in wbuf, out of drop-oldest's reach). (b) the per-client fan-out step (drive, drop-oldest, append the batch, drive): the queue stays within buffer_size; drop-oldest never asks to drain more than is queued (no panic); a client that stays keeps a stream of the form sent ++ parked remainder ++ whole frames, from which only whole, not yet started, oldest frames were discarded; a closed client is scheduled for removal once and is NOT counted out here (it is counted out where it leaves the client map).",
+        "text": "Claimed where a boundary exists. (a) drive_connection: for every state of (parked remainder, queue), every socket behaviour (any partial write length, WouldBlock, EINTR, errors) and any number of loop iterations, drive_connection conserves `bytes accepted by the socket ++ parked remainder ++ queued frames`: no byte of a frame is lost, duplicated or reordered, so what a slow client receives stays a prefix of the concatenation of whole frames; and the droppable queue only loses frames from its front and never receives the remainder of a half-written frame (that stays parked in wbuf, out of drop-oldest's reach). (b) the per-client fan-out step (drive, drop-oldest, append the batch, drive): the queue stays within buffer_size; drop-oldest never asks to drain more than is queued (no panic); a client that stays keeps a stream of the form sent ++ parked remainder ++ whole frames, from which only whole, not yet started, oldest frames were discarded; a closed client is scheduled for removal once and is NOT counted out here (it is counted out where it leaves the client map). (c) State::register_metric / push_metric: whenever the call attempted to enqueue an event it woke the transport afterwards (ghost accounting spliced after the real statements). (d) the metadata arm of the rx loop (lifted): after a (re-)description the table holds the latest unit and description of the name, the first registration's type, and nothing else changes.",
         "note": "ASSUMED: std::io::Write::write on a non-blocking mio TcpStream accepts a prefix of the buffer or fails without accepting anything; bytes::Bytes::split_off as documented; vstd VecDeque specs. NOT decided (inside the mio event loop run_transport, no boundary): the rx loop that bounds the batch, metadata-first ordering, accept path and the removal loop (that client_count equals the number of mapped clients is only covered by the frame condition above), behaviour for buffer_size None (VecDeque::with_capacity(usize::MAX)), delivery to every client, encoding. Termination of the retry recursion is not proved.",
     },
-    "min_obligations": {"quick": 8, "thorough": 8},
+    "min_obligations": {"quick": 12, "thorough": 12},
     "assumptions": [
         "non-blocking TcpStream::write: Ok(n) accepted exactly the first n <= len bytes, Err(_) accepted nothing (std/mio contract)",
         "bytes::Bytes::split_off(at): self keeps [0, at), the result is [at, len)",
@@ -20,6 +20,8 @@ PLAN = {
     ],
     "verus": [
         {"template": "drive.verus.rs", "tier": "quick", "rlimit": 40, "min_functions": 5},
+        # enqueue side: every enqueue attempt is followed by a wake-up; the metadata table keeps the latest description
+        {"template": "state.verus.rs", "tier": "quick", "rlimit": 40, "min_functions": 3},
     ],
     "witnesses": [
         {"match": r"drive_connection", "src": "witness_would_block.rs", "crate": "metrics-exporter-tcp", "file": "metrics-exporter-tcp/src/lib.rs"},
